@@ -485,7 +485,10 @@ func newBucketStorage(
 	var (
 		pairs   = BucketPairs(buckets)
 		storage = bucketStorage{
-			buckets:  buckets,
+			// n.b. The storage outlives this call (it is cached and handed to
+			//      reporters with every report), so it must not alias memory
+			//      the caller may reuse for its next bucket set.
+			buckets:  copyBuckets(buckets),
 			hbuckets: make([]histogramBucket, 0, len(pairs)),
 		}
 	)
@@ -498,6 +501,28 @@ func newBucketStorage(
 	}
 
 	return storage
+}
+
+// copyBuckets returns a private copy of the built-in bucket types; any other
+// implementation of Buckets is returned as is.
+func copyBuckets(buckets Buckets) Buckets {
+	switch b := buckets.(type) {
+	case ValueBuckets:
+		if b == nil {
+			return b
+		}
+		c := make(ValueBuckets, len(b))
+		copy(c, b)
+		return c
+	case DurationBuckets:
+		if b == nil {
+			return b
+		}
+		c := make(DurationBuckets, len(b))
+		copy(c, b)
+		return c
+	}
+	return buckets
 }
 
 type bucketCache struct {
